@@ -47,9 +47,11 @@ func DrawRealModule(r *Rng, minPkgs int) (*ModuleSpec, []string) {
 		}
 		var src []string
 		k := pi
-		src = append(src, fmt.Sprintf("// Sub%d is embedded by value.\ntype Sub%d struct {\n\t// N counts.\n\tN int\n\tVals []int\n}", k, k))
-		src = append(src, fmt.Sprintf("// Kind%d enumerates.\ntype Kind%d int", k, k))
-		fields := []string{"\t// Name of the item.\n\t// second line\n\tName string", "\tCount int", "\tTags []string", "\tMeta map[string]string",
+		// doc texts whose remainder starts with the declared name again ("N Number of ...", "Kind0 Kind0s ..."):
+		// trimming the leading name must happen once, on a private copy
+		src = append(src, fmt.Sprintf("// Sub%d Sub%d-like values are embedded by value.\ntype Sub%d struct {\n\t// N Number of things; N counts.\n\tN int\n\tVals []int\n}", k, k, k))
+		src = append(src, fmt.Sprintf("// Kind%d Kind%d Kind%d Kind%d Kind%d enumerates (the name, repeated).\ntype Kind%d int", k, k, k, k, k, k))
+		fields := []string{"\t// Name Names the item.\n\t// second line\n\tName string", "\t// Count Counts Count\n\tCount int", "\tTags []string", "\tMeta map[string]string",
 			fmt.Sprintf("\tSub Sub%d", k), fmt.Sprintf("\tKind Kind%d", k), "\thidden bool"}
 		if r.P(0.4) {
 			src = append(src, fmt.Sprintf("// Labels%d is a named map.\ntype Labels%d map[string]string", k, k))
@@ -69,7 +71,7 @@ func DrawRealModule(r *Rng, minPkgs int) (*ModuleSpec, []string) {
 		for _, i := range perm {
 			fl = append(fl, fields[i])
 		}
-		src = append(src, fmt.Sprintf("// Item%d is the main type.\n//\n// It has \"quotes\" and a `backquote`.\ntype Item%d struct {\n%s\n}", k, k, strings.Join(fl, "\n")))
+		src = append(src, fmt.Sprintf("// Item%d Item%d Item%d Item%d is the main type.\n//\n// It has \"quotes\" and a `backquote`.\ntype Item%d struct {\n%s\n}", k, k, k, k, k, strings.Join(fl, "\n")))
 		if r.P(0.3) {
 			src = append(src, fmt.Sprintf("type unexported%d struct {\n\tA int\n}", k))
 		}
